@@ -227,9 +227,51 @@ def trace_equivalence(rec, hub, seed):
     rec.info("trace_equivalence", {"configurations": equal + len(differing), "same_line_sequence_for_tagged_real_taint": equal, "value_dependent_control_flow": differing, "lines_traced_example": n})
 
 
+def big_cases(rec, hub, rng, n_cases):
+    from ..oracles import big
+
+    fd = hub.fd
+    for k in range(n_cases):
+        U = gen.big_universe(fd, rng)
+        la = tuple(str(q) for q in rng.permutation(list("abcd"))[: int(rng.integers(2, 5))])
+        reg = "dyadic" if rng.random() < 0.5 else "real"
+        v = gen.relayout(gen.big_values(rng, gen.shape_of(U, la), reg), rng)
+
+        def mk():
+            return fd.FlodymArray(dims=gen.dimset(fd, U, la), values=v.copy(order="K"))
+
+        keep = tuple(str(q) for q in rng.permutation(list(la))[: int(rng.integers(0, len(la)))])
+        over = tuple(l for l in la if l not in keep)
+        jobs = [("sum_to", keep, lambda x: x.sum_to(keep)), ("sum_over", over, lambda x: x.sum_over(over)), ("cumsum", la[-1], lambda x: x.cumsum(la[-1])), ("cumsum", la[0], lambda x: x.cumsum(la[0]))]
+        if over and len(over) < len(la):
+            jobs.append(("shares", over, lambda x: x.get_shares_over(over)))
+        for kind, arg, f in jobs:
+            x = mk()
+            if kind == "shares":
+                x.values[...] = np.abs(x.values) + 1.0
+            try:
+                r, e = f(x), None
+            except Exception as ex:
+                r, e = None, ex
+            big.judge_reduce(rec, fd, kind, x, arg, r, e)
+        # cast of a small part to the full set in another order
+        src_l = tuple(la[:2][::-1])
+        tgt_l = tuple(str(q) for q in rng.permutation(list(la)))
+        xs_ = fd.FlodymArray(dims=gen.dimset(fd, U, src_l), values=gen.big_values(rng, gen.shape_of(U, src_l), "dyadic"))
+        tds = gen.dimset(fd, U, tgt_l)
+        try:
+            r, e = xs_.cast_to(tds), None
+        except Exception as ex:
+            r, e = None, ex
+        big.judge_reduce(rec, fd, "cast_to", xs_, tgt_l, r, e, target_dims=[(d.letter, d.name, tuple(d.items)) for d in tds])
+
+
 def run(rec, hub, tier, seed, shard, nshards, budget):
     fd = hub.fd
     red.register(hub)
+    rec.require("large-arrays", 5)
+    rec.set_case(driver="c07.big", seed=seed, tier=tier, shard=shard, nshards=nshards, idx=shard)
+    big_cases(rec, hub, case_nprng(seed, "c07.big", shard, 0), 3 if tier == "quick" else 6)
     if shard == 0:
         trace_equivalence(rec, hub, seed)
     rec.deciding.update({"cast-sum-back", "shares-times-totals"})
@@ -253,6 +295,10 @@ def run(rec, hub, tier, seed, shard, nshards, budget):
 def replay(rec, hub, case):
     fd = hub.fd
     red.register(hub)
+    if case["driver"] == "c07.big":
+        rec.set_case(**case)
+        big_cases(rec, hub, case_nprng(case["seed"], "c07.big", case.get("shard", 0), 0), 3 if case.get("tier", "quick") == "quick" else 6)
+        return
     letters, patterns = plan(case.get("tier", "quick"))
     U = gen.universe(fd, dict(zip(letters, patterns[case["pattern"]])), rng=case_nprng(case["seed"], "c07.universe", 0, f"{case['idx']}.{case['pattern']}"))
     rng = case_nprng(case["seed"], "c07.source", 0, f"{case['idx']}.{case['pattern']}")
